@@ -14,7 +14,7 @@ from ..gen.filters import FilterGen
 from ..gen.render import Renderer, canonical
 from ..oracle import diff_nodelists, judge_query
 from ..ref import rfc9535 as ref
-from ..run import Stats, hyp_run, mix
+from ..run import Stats, hyp_run, mix, rng_for
 from ..strict import canon, short
 
 import jsonpath
@@ -152,7 +152,7 @@ def t_random(seed, n):
 
     def body(x):
         doc, s = x
-        rng = random.Random(s)
+        rng = rng_for(s)
         stats.case()
         ctxd = rng.choice([CTX, CTX, {"a": [1, 2], "k": "b"}, {}])
         fg = FilterGen(rng, doc, depth=3, ext=True, ctx_data=ctxd)
